@@ -182,8 +182,11 @@ SLICES = {
         ('doc(h1("a" + U))', 1, 4),                   # astral
         ('doc(h2("XYZ"))', 2, 3, True),               # open on both sides inside ONE node whose markup differs
         ('doc(bq(h1("Q")))', 2, 3, True),             # the same, two levels deep
-        ('doc(ol(li(p("a"), pre("bcd"))))', 5, 6, True),  # open through a list item whose required first child was cut off
     ],
+}
+# late additions: appended by ops.payloads AFTER the empty slice so that payload indices recorded in known_findings.json stay put
+SLICES_LATE = {
+    "list": [('doc(ol(li(p("a"), pre("bcd"))))', 5, 6, True)],  # open through a list item whose required first child was cut off
 }
 SLICES["basic"] = [s for s in SLICES["list"] if "ul(" not in s[0]]
 SLICES["docmarks"] = SLICES["list"]
@@ -216,6 +219,11 @@ def doc(schema_name, i):
 
 def nslices(schema_name):
     return len(SLICES.get(schema_name, []))
+
+
+def late_slices(schema_name):
+    return [build(schema_name, e[0]).slice(e[1], e[2], bool(e[3]) if len(e) > 3 else False)
+            for e in SLICES_LATE.get(schema_name, [])]
 
 
 def slice_(schema_name, i):
